@@ -608,16 +608,23 @@ class Visitor(ast.NodeVisitor):
         """Recursively visit the comparators and apply the operations on them."""
         left = self.visit(node=node.left)
 
-        comparators = [self.visit(node=comparator) for comparator in node.comparators]
-
-        # Please see "NOTE ABOUT PLACEHOLDERS AND RE-COMPUTATION"
-        if left is PLACEHOLDER or any(
-            comparator is PLACEHOLDER for comparator in comparators
-        ):
-            return PLACEHOLDER
+        # The comparators of a chained comparison are evaluated lazily, exactly as Python does: the evaluation stops
+        # at the first comparison which does not hold, and the remaining comparators are not evaluated
+        # (*e.g.*, ``0 < n < 10 // n``).
+        placeholder_observed = left is PLACEHOLDER
 
         result = None  # type: Optional[Any]
-        for comparator, op in zip(comparators, node.ops):
+        for i, (comparator_node, op) in enumerate(zip(node.comparators, node.ops)):
+            comparator = self.visit(node=comparator_node)
+
+            # Please see "NOTE ABOUT PLACEHOLDERS AND RE-COMPUTATION"
+            if comparator is PLACEHOLDER:
+                placeholder_observed = True
+
+            if placeholder_observed:
+                # We can not know where Python stopped; we keep visiting the comparators to re-compute their parts.
+                continue
+
             if isinstance(op, ast.Eq):
                 comparison = left == comparator
             elif isinstance(op, ast.NotEq):
@@ -641,12 +648,17 @@ class Visitor(ast.NodeVisitor):
             else:
                 raise NotImplementedError("Unhandled op of {}: {}".format(node, op))
 
-            if result is None:
-                result = comparison
-            else:
-                result = result and comparison
+            result = comparison
+
+            # Python tests the truthiness of a comparison only if there are more comparisons in the chain.
+            # (This matters for the values with no boolyness such as numpy arrays.)
+            if i < len(node.ops) - 1 and not comparison:
+                break
 
             left = comparator
+
+        if placeholder_observed:
+            return PLACEHOLDER
 
         self.recomputed_values[node] = result
         return result
